@@ -1,5 +1,6 @@
 import Efp.Proofs.Val
 import Efp.Props.C02
+import Efp.Theory.Checker
 import Mathlib.Algebra.BigOperators.Group.List.Basic
 /-!
 # C19 — results are independent of creation order, identifiers and hashing
@@ -9,6 +10,8 @@ specification, names are only look-up keys), and every iteration order that Pyth
 `set` or from an order-irrelevant list is an explicit list of the specification.  What has to be
 shown is that permuting such a list does not change any physical value.  Every such iteration in
 the code is an accumulation `x += …` of hourly values in one unit, i.e. `sumVals`.
+At the level of the whole computation, `builds_agree`: any two computation orders that respect the
+reads give the same state (the abstract recomputation theory of C01).
 -/
 namespace Efp.Props.C19
 open Efp
@@ -40,6 +43,30 @@ theorem same_step_order_irrelevant (jobs jobs' : List String) (h : jobs.Perm job
     (jobs.filter (· == job)).map (fun _ => dh) = (jobs'.filter (· == job)).map (fun _ => dh) := by
   have : (jobs.filter (· == job)).length = (jobs'.filter (· == job)).length := (h.filter _).length_eq
   rw [List.map_const', List.map_const', this]
+
+/-- **building the same model twice gives the same numbers, whatever the order of computation**:
+two full passes over the calculated nodes, in any two orders that respect the reads (creation order,
+hash order of the objects, canonical class order…), from any two starting states that agree on the
+inputs, end in the same state — for every rule system whose reads are well-founded -/
+theorem builds_agree {V : Type} (S : Efp.Theory.RuleSys Nat V) (rk : Nat → Nat)
+    (wf : ∀ n, S.isCalc n = true → ∀ m ∈ S.reads n, rk m < rk n)
+    (order order' : List Nat) (σ σ' : Nat → V)
+    (hnd : order.Nodup) (hnd' : order'.Nodup)
+    (hall : ∀ n, S.isCalc n = true → n ∈ order) (hall' : ∀ n, S.isCalc n = true → n ∈ order')
+    (honly : ∀ n ∈ order, S.isCalc n = true) (honly' : ∀ n ∈ order', S.isCalc n = true)
+    (hord : ∀ l₁ n l₂, order = l₁ ++ n :: l₂ → ∀ m ∈ S.reads n, m ∉ l₂ ∧ m ≠ n)
+    (hord' : ∀ l₁ n l₂, order' = l₁ ++ n :: l₂ → ∀ m ∈ S.reads n, m ∉ l₂ ∧ m ≠ n)
+    (hin : ∀ n, S.isCalc n = false → σ n = σ' n) :
+    Efp.Theory.run S σ order = Efp.Theory.run S σ' order' := by
+  have c := Efp.Theory.full_pass_consistent S order σ hnd hall hord
+  have c' := Efp.Theory.full_pass_consistent S order' σ' hnd' hall' hord'
+  funext n
+  apply Efp.Theory.consistent_unique S rk wf _ _ c c'
+  intro m hm
+  have h1 : m ∉ order := fun h => by rw [honly m h] at hm; cases hm
+  have h2 : m ∉ order' := fun h => by rw [honly' m h] at hm; cases hm
+  rw [Efp.Theory.run_not_mem S order σ m h1, Efp.Theory.run_not_mem S order' σ' m h2]
+  exact hin m hm
 
 example : (["a", "b", "a"] : List String).Perm ["a", "a", "b"] := by decide
 
